@@ -1075,13 +1075,14 @@ def generate(unit_name):
                     elif y[1] in CLOSE:
                         depth -= 1
                         # lastexpr=1: `last` starts the tail expression of its block; the fragment ends where that block closes
-                        if depth < 0 and opts.get('lastexpr') == '1': e0 = y[2]; break
+                        # lastexpr=1: `last` starts the tail expression of its block; toblockend=1: the fragment runs to the end of the block `last` is in (whatever statements follow it)
+                        if depth < 0 and (opts.get('lastexpr') == '1' or opts.get('toblockend') == '1'): e0 = y[2]; break
                         # lastblock=1: `last` starts a block statement (for/while/if); the fragment ends with its closing brace
                         if depth == 0 and y[1] == '}' and opts.get('lastblock') == '1':
                             # an if-statement extends over its `else` chain
                             if pp + 1 < len(ci) and toks[ci[pp + 1]][1] == 'else': pp += 1; continue
                             e0 = y[3]; break
-                    elif y[1] == ';' and depth == 0 and opts.get('lastblock') != '1': e0 = y[3]; break
+                    elif y[1] == ';' and depth == 0 and opts.get('lastblock') != '1' and opts.get('toblockend') != '1': e0 = y[3]; break
                 pp += 1
             if e0 is None or e0 <= s0: raise GenErr('%s: fragment end not found' % name)
             import types
@@ -1090,7 +1091,7 @@ def generate(unit_name):
             for kx, vx in blocks.items():
                 if kx.startswith('before ') or kx.startswith('after ') or kx.startswith('afterloop ') or kx.startswith('loop') or kx.startswith('blockend ') or kx.startswith('fmax') or kx.startswith('iter'): fblocks[kx] = vx
             wrapper = types.SimpleNamespace(text='fn verif_frag() {' + frag.text + '}', name=frag.name, line=frag.line, path=path, kind='fn', impl=item.impl)
-            o2 = dict(opts); o2.pop('first', None); o2.pop('last', None); o2.pop('lastexpr', None); o2.pop('lastblock', None); o2.pop('until', None); o2.pop('untiln', None)
+            o2 = dict(opts); o2.pop('first', None); o2.pop('last', None); o2.pop('lastexpr', None); o2.pop('lastblock', None); o2.pop('until', None); o2.pop('untiln', None); o2.pop('toblockend', None)
             body = extract_fn(wrapper, o2, fblocks, u.rewrites)
             # strip the synthetic wrapper again: keep what is between the first '{' and the last '}'
             inner = body[body.index('{') + 1: body.rindex('}')]
